@@ -3,6 +3,9 @@
 import json, os
 
 HERE = os.path.dirname(os.path.dirname(os.path.abspath(__file__)))
+LIM = ("Known false-alarm surface (DESIGN.md 10.2b): four behaviour-preserving restructurings are still reported (merge via find/any, "
+       "demotion set as an iterator pipeline, attribute loop in a closure-taking helper, options carried in a context struct); 44 of 48 "
+       "independently written refactorings are silent. ")
 TB = ("Trusted base: rustc nightly MIR (mir-opt-level=0) of /repo's current working tree as produced by the real cargo build "
       "flags; std, quick-xml 0.37.5, convert_string 0.2.0, clap and log behave as documented. ")
 
@@ -19,32 +22,32 @@ CHECKS = {
     "C12": dict(cat="other", tech="static analysis: effect-order/dominance rules and symbolic sink values over the binary's MIR", ref="DESIGN.md section 4 C12, section 3 A7",
                 text="Decides everything the property states given std/clap/log semantics: output effects only after both the read and the parse succeeded; sink value = the property's header + library rendering of the parsed root with options derived from --parser/--derive/--sort; file branch writes `{}` only and nothing to stdout; stdout branch prints `{}\\n` and touches no file; conversion tables, value names and defaults; error handler = stderr diagnostic, no stdout, always exit(1). The CLI has no tests at all.",
                 note=TB + "Exit status 0 follows from main returning; env_logger configuration analysed in the thorough tier."),
-    "C15": dict(cat="other", tech="static analysis: shape rules + path-enumerated outcome table of the merge function's MIR", ref="DESIGN.md section 4 C15, section 3 A9",
+    "C15": dict(lim=True, cat="other", tech="static analysis: shape rules + path-enumerated outcome table of the merge function's MIR", ref="DESIGN.md section 4 C15, section 3 A9",
                 text="For the nested-loop implementation shape: result created empty and append-only; each parameter traversed front to back without adapters and to exhaustion; every path of an iteration (flags and tags tracked) pushes exactly the tag the specification table demands. These facts imply union, exactly-once for duplicate-free inputs, conjunction of necessity and stable order. A rewrite into combinators is reported as shape-not-recognised (documented limitation).",
                 note=TB + "PartialEq of the item type is an equivalence."),
 
-    "C01": dict(cat="other", tech="static analysis: parser-mechanism conformance rules over MIR (event classes, control/data dependence of the inference mechanism), unsound direction", ref="DESIGN.md section 4 C01/C03/C06 (PM pack)",
+    "C01": dict(lim=True, cat="other", tech="static analysis: parser-mechanism conformance rules over MIR (event classes, control/data dependence of the inference mechanism), unsound direction", ref="DESIGN.md section 4 C01/C03/C06 (PM pack)",
                 text="Partial: does NOT decide that the structs admit every source document. Decides the PM obligations whose violation makes the schema too strict or drops structure (event classes incl. CData, repeat detection, demotion of children absent from an occurrence, attribute collection and conjunction of necessity, re-insertion, extension = same engine, one field per tree node with Option/Vec/String chosen by the node's flags). Each is a necessary condition of the behaviour; the behaviour itself quantifies over all trees and is out of reach of a static argument.",
                 note=TB + "Conformance to today's mechanism; a redesign is reported as not recognised. quick-xml's event stream is trusted."),
-    "C03": dict(cat="other", tech="static analysis: parser-mechanism conformance rules over MIR in both directions (PM1-PM16) + merge outcome table", ref="DESIGN.md section 4 C01/C03/C06 (PM pack)",
+    "C03": dict(lim=True, cat="other", tech="static analysis: parser-mechanism conformance rules over MIR in both directions (PM1-PM16) + merge outcome table", ref="DESIGN.md section 4 C01/C03/C06 (PM pack)",
                 text="Partial: does NOT decide the iff (exactness depends on the counter trick over all interleavings). Decides mechanism conformance in both directions: set_multiple exactly under seen.contains(name), counter incremented once per repeat, snapshot = exactly the Mandatory children, demotion set = unchanged-or-absent and nothing else, Empty demotes with an empty snapshot, String typing condition, Option iff Optional, Vec iff not standalone, text field iff text.",
                 note=TB + "Frozen, hand-confirmed instance table; behaviour-preserving redesigns of the mechanism are reported (documented limitation)."),
-    "C06": dict(cat="other", tech="static analysis: structural rules over MIR (delegation to the same engine, statelessness, monotone field writes, by-value signature, Result propagation)", ref="DESIGN.md section 4 C01/C03/C06 (PM13-PM15)",
+    "C06": dict(lim=True, cat="other", tech="static analysis: structural rules over MIR (delegation to the same engine, statelessness, monotone field writes, by-value signature, Result propagation)", ref="DESIGN.md section 4 C01/C03/C06 (PM13-PM15)",
                 text="Partial: does NOT decide order-independence or idempotence. Decides: extension = fresh wrapper + previous root as its child + the same event loop + the same root extraction; no hidden state; standalone only cleared, text only set, children never replaced, removed children re-inserted; attribute necessity is a conjunction; previous structure by value and every Result propagated, so a failed extension yields Err and no partial result.",
                 note=TB + "Algebraic laws over histories are not decided."),
-    "C09": dict(cat="other", tech="static analysis: renderer emission model over MIR (dominance order of emission sites, sort keys per option alternative, field write discipline)", ref="DESIGN.md section 4 C09, section 3 A6",
+    "C09": dict(lim=True, cat="other", tech="static analysis: renderer emission model over MIR (dominance order of emission sites, sort keys per option alternative, field write discipline)", ref="DESIGN.md section 4 C09, section 3 A6",
                 text="Near-full for the code's own part: emission groups ordered header, attributes, text, children, closing brace, child structs (pre-order); children sorted by position (Unsorted) or name (XmlName), attributes sorted by name only under XmlName; stored attribute order = first appearance (constructor keeps order, merge(self, new) with the merge's order rules); position written once, guarded, = children.len() before insertion. Not decided: uniqueness of sort keys for hand-built trees.",
                 note=TB + "sort_unstable_by_key, Vec::push and iterators behave as documented."),
-    "C10": dict(cat="other", tech="static analysis: non-interference by signatures and complete per-field use sets (control/data dependence) in the renderer's MIR", ref="DESIGN.md section 4 C10, section 3 A6",
+    "C10": dict(lim=True, cat="other", tech="static analysis: non-interference by signatures and complete per-field use sets (control/data dependence) in the renderer's MIR", ref="DESIGN.md section 4 C10, section 3 A6",
                 text="Decides the property for the code: only the renderer can see Options (signatures, no shared state); inside it every read of every Options field is classified and must be one of: derive -> is_empty controlling only the derive emission + its display argument; sort -> tests whose alternatives only sort local clones; attribute_prefix -> first argument of the serde-name template used only by the rename guard and rename emission; text_identifier -> the text rename's argument; renames emitted exactly under identifier != bound name; presets/builder are plain constructors.",
                 note=TB + "Display of String is verbatim."),
-    "C11": dict(cat="other", tech="static analysis: non-interference by dependence over MIR (value payloads never read, presence-only reads of text, sibling-arm agreement, no reader configuration, no hash order)", ref="DESIGN.md section 4 C11",
+    "C11": dict(lim=True, cat="other", tech="static analysis: non-interference by dependence over MIR (value payloads never read, presence-only reads of text, sibling-arm agreement, no reader configuration, no hash order)", ref="DESIGN.md section 4 C11",
                 text="Mostly decided: attribute values never read; text payload flows only into Element.text whose every read is is_some/is_none/discriminant; Text and CData both set the flag, ignored kinds are no-ops; no reader configuration is set or read; Start/Empty arms agree (same tag parser, seen list, demotion in both, demotion order = vector order). Not decided: full observational equivalence of <x/> and <x></x> for every history; buffer-size independence of quick-xml.",
                 note=TB + "quick-xml yields the same events for the same bytes regardless of chunking."),
-    "C16": dict(cat="other", tech="static analysis: guard rules over MIR for every insertion into Element.children, inspection of lookup predicates", ref="DESIGN.md section 4 C16, section 3 A10",
+    "C16": dict(lim=True, cat="other", tech="static analysis: guard rules over MIR for every insertion into Element.children, inspection of lookup predicates", ref="DESIGN.md section 4 C16, section 3 A10",
                 text="Partial: every insertion into a children vector is guarded by a name-only absence test of the inserted child's own name or re-inserts the value just removed; lookups/removal compare the name only and remove the found index; adding a present name is a no-op; mark-optional re-inserts the removed value (subtree kept); renderer emits one field per child/attribute. Not decided: step-by-step model equivalence, output well-formedness.",
                 note=TB + "Induction over operation sequences with Element::new as base case is a hand argument."),
-    "C04": dict(cat="other", tech="static analysis: guard cross-check between sibling identifier producers (reserved-word and uniqueness guards on every path to an identifier slot)", ref="DESIGN.md section 4 C04",
+    "C04": dict(lim=True, cat="other", tech="static analysis: guard cross-check between sibling identifier producers (reserved-word and uniqueness guards on every path to an identifier slot)", ref="DESIGN.md section 4 C04",
                 text="Partial: field identifiers reach their template slots only through to_valid_key and a single reservation list that records a name only when not yet contained (holds); struct identifiers are demanded the same and fail both guards - two known findings confirmed on the real code (reserved/prelude names, duplicate struct names); header slot and field-type slot of a child are the same function of the same trace. Not decided: sufficiency of the guards for all names, syntax of the whole output.",
                 note=TB + "convert_string::to_valid_key yields a legal non-keyword identifier."),
     "C02": dict(cat="other", tech="static analysis: constant-table agreement (preset constants from MIR vs key literals of the locked deserializer sources) + renderer use sets", ref="DESIGN.md section 4 C13/C02, section 3 A8",
@@ -75,7 +78,7 @@ def main():
                 "replay_cmd_template": "./check %s --replay {path}" % p,
                 "engine": "xsgv",
                 "level_claimed": {"category": c["cat"], "text": c["text"], "design_ref": c["ref"]},
-                "level_note": c["note"],
+                "level_note": c["note"] + (" " + LIM if c.get("lim") else ""),
                 "technique": c["tech"],
             })
     na = [{"property_id": p, "reason": NA.get(p, PENDING)} for p in props if p not in CHECKS]
